@@ -61,6 +61,7 @@ func c16Name(a string) string {
 type c16Ctl struct {
 	resources.Contract
 	id   string
+	gen  int // the purchase (by count) that was current on chain when the controller was created
 	exit chan struct{}
 	rec  *vh.Rec
 }
@@ -89,6 +90,7 @@ type c16World struct {
 	cancel context.CancelFunc
 	done   chan struct{}
 	gate   chan struct{}
+	gen    map[string]int // purchases so far, per contract
 }
 
 func (w *c16World) start() {
@@ -96,6 +98,7 @@ func (w *c16World) start() {
 	w.mgr = NewContractManager(c16Addr("cf"), c16Addr("me"), func(terms *hashrate.EncryptedTerms) (resources.Contract, error) {
 		c := &c16Ctl{id: terms.ID(), exit: make(chan struct{}), rec: w.rec}
 		w.mu.Lock()
+		c.gen = w.gen[strings.ToLower(terms.ID())]
 		w.ctls[terms.ID()] = c
 		w.mu.Unlock()
 		return c, nil
@@ -149,7 +152,7 @@ func (w *c16World) watched() string {
 }
 
 func c16Exec(tr *vh.Transcript, ops []string) {
-	w := &c16World{chain: vh.NewFakeChain(c16Addr("cf")), rec: &vh.Rec{}, ctls: map[string]*c16Ctl{}}
+	w := &c16World{chain: vh.NewFakeChain(c16Addr("cf")), rec: &vh.Rec{}, ctls: map[string]*c16Ctl{}, gen: map[string]int{}}
 	defer func() {
 		if w.cancel != nil {
 			w.cancel()
@@ -196,6 +199,11 @@ func c16Exec(tr *vh.Transcript, ops []string) {
 		case "purchased":
 			c := w.chain.Get(c16Addr(f[1]))
 			if c != nil {
+				if c.State != 1 { // a duplicate / late event of the purchase that is running is not a new purchase
+					w.mu.Lock()
+					w.gen[strings.ToLower(c.Addr.Hex())]++
+					w.mu.Unlock()
+				}
 				set(c, f[2:])
 				c.State = 1
 				c.StartsAt = 1700000000
@@ -204,6 +212,11 @@ func c16Exec(tr *vh.Transcript, ops []string) {
 		case "purchasedslow": // like purchased, but the node's answer about the contract is held back until `rpcrelease`
 			c := w.chain.Get(c16Addr(f[1]))
 			if c != nil {
+				if c.State != 1 { // a duplicate / late event of the purchase that is running is not a new purchase
+					w.mu.Lock()
+					w.gen[strings.ToLower(c.Addr.Hex())]++
+					w.mu.Unlock()
+				}
 				set(c, f[2:])
 				c.State = 1
 				c.StartsAt = 1700000000
@@ -231,7 +244,15 @@ func c16Exec(tr *vh.Transcript, ops []string) {
 		case "ctlexit":
 			w.mu.Lock()
 			c := w.ctls[c16Addr(f[1]).Hex()]
+			g := w.gen[strings.ToLower(c16Addr(f[1]).Hex())]
 			w.mu.Unlock()
+			// a buyer / validator controller returns only when its purchase has ended (C10): the controller of the
+			// purchase that is running on chain now does not return, whatever the generated history asks for
+			if ch := w.chain.Get(c16Addr(f[1])); c != nil && ch != nil && ch.State == 1 && ch.Seller != c16Addr("me") &&
+				(ch.Buyer == c16Addr("me") || ch.Validator == c16Addr("me")) && c.gen == g {
+				op = "ctlexit-refused " + f[1]
+				c = nil
+			}
 			if c != nil {
 				select {
 				case <-c.exit:
@@ -315,7 +336,7 @@ func c16Gen(r *vh.Rng, orderly bool) []string {
 				if orderly {
 					ops = append(ops, "ctlexit "+c) // the controller of an ended buyer / validator contract exits at once
 				} else {
-					s.stale = s.mine // only a purchase of ours has a controller
+					s.stale = s.stale || s.mine // only a purchase of ours has a controller; an older one that has not returned stays
 				}
 			}
 		case k < 85 && s.exists && (!s.running || s.stale) && s.seller != "me":
